@@ -156,6 +156,26 @@ pub fn check_wire(case: &NoisyCase, st: &mut Stats) -> Result<(), String> {
                 .map_err(|e| format!("validated decode of reference bytes under noise {:?} failed: {}", mode, e))?;
             compare_decoded(&m2, &p.model, &enc).map_err(|e| format!("validated, noise {:?}: {}", mode, e))?;
         }
+        // B': a message obtained by decoding is a message like any other: encoding it again gives the reference bytes
+        // for its logical content, i.e. with reserved bits and padding zeroed (relaying).  Decoded integrity /
+        // fingerprint values and unknown attributes cannot be encoded by design and are left out.
+        let relayable = !p.model.attrs.iter().any(|a| matches!(a, RAttr::Mi(_) | RAttr::MiSha256(_) | RAttr::Fp(_) | RAttr::Raw { .. }));
+        if relayable && enc.noise_set > 0 {
+            let again = lib_encode(&m, reference.bytes.len() + 16, None).map_err(|e| format!("re-encoding the message decoded under noise {:?} failed: {}", mode, e))?;
+            if again != reference.bytes {
+                let pos = again.iter().zip(reference.bytes.iter()).position(|(a, b)| a != b).unwrap_or(again.len().min(reference.bytes.len()));
+                let tlv = reference.tlv.iter().position(|t| pos >= t.hdr_off && pos < t.val_off + t.val_len + t.pad_len);
+                return Err(format!(
+                    "message decoded from bytes with ignorable bits set (noise {:?}) re-encodes differently from the reference at offset {} (attribute {:?}): lib {} ref {}",
+                    mode,
+                    pos,
+                    tlv.map(|i| p.model.attrs[i].kind_name()),
+                    hex(&again[pos.saturating_sub(4)..(pos + 8).min(again.len())]),
+                    hex(&reference.bytes[pos.saturating_sub(4)..(pos + 8).min(reference.bytes.len())]),
+                ));
+            }
+            st.count("relayed-re-encodings", 1);
+        }
         st.count("noisy-decodes", 1);
         st.evaluations += 1;
         if enc.noise_set > 0 {
